@@ -20,7 +20,12 @@ def task_verify_cases(job):
     return out
 
 
-TASKS = {"verify_cases": task_verify_cases}
+def task_canon_cases(job):
+    from .props import c07
+    return c07.task_canon_cases(job)
+
+
+TASKS = {"verify_cases": task_verify_cases, "canon_cases": task_canon_cases}
 
 
 def main():
